@@ -131,7 +131,7 @@ class Region:
             if getattr(self, '_watch', False) and ix.is_const() and ix.const_value().denominator == 1 and not -self.n <= ix.const_value() < self.n:
                 self.oob.append(int(ix.const_value()))          # numpy raises IndexError
             if ix.is_const() and ix.const_value().denominator == 1 and -self.n <= ix.const_value() < 0:
-                return index_at(Poly.from_key(a[2][2]), self.label, num(int(ix.const_value()) + self.n))          # counted from the end
+                return self.simplify_inner(index_at(Poly.from_key(a[2][2]), self.label, num(int(ix.const_value()) + self.n)))          # counted from the end
             return None
         if a[1] == 'searchsorted' and len(a) in (4, 5) and a[2][0] == 'B' and a[2][1] == self.label and a[3][0] == 'P':
             # the number of knots below the request (side='left') / not above it (side='right')
